@@ -154,12 +154,24 @@ def run(ctx):
     # schedules cut short): Model/ReaderSched, C04.every_interleaving_prefix / every_interleaving_complete
     parts.run("arbitrary interleavings of arrival and reader progress", chunks.evaluate_moves, res, sub[:(200 if tier == "quick" else 4000)],
               random.Random(ctx["seed"] * 104729 + 43))
+    # the same reader / connection in a process with HISTORY (calls abandoned at every suspension point of read(), the
+    # Frame.create executor hop with its job pending included; each history in a fresh python process): harness/history.py
+    import history
+    parts.run("reader histories with abandoned calls, in fresh processes", history.evaluate, res,
+              random.Random(ctx["seed"] * 104729 + 45), tier, "C04", 6 if tier == "quick" else None)
     parts.finish()
     return res
 
 
 def replay(ctx):
     f = ctx["replay"].get("failure") or ctx["replay"].get("first_difference")
+    if f["input"].get("via") == "history":
+        import history
+        res = Result("C04")
+        res.rule = "replay of one recorded history of reader sessions in a fresh process"
+        history.replay_case(res, f["input"], "C04")
+        res.case(str(f["input"]["scenario"]))
+        return res
     if f["input"].get("via") == "moves":
         import chunks
         res = Result("C04")
